@@ -21,8 +21,11 @@ demo() {
   LIBS="-L$W/_build/mptcore -lmptcore -Wl,-rpath,$W/_build/mptcore"
   if grep -q "stream.h\|mptio" "$DEMO"; then LIBS="$LIBS -L$W/_build/mptio -lmptio -Wl,-rpath,$W/_build/mptio"; fi
   if grep -q "mpt++\|io.h\|namespace mpt\|mpt::" "$DEMO"; then LIBS="$LIBS -L$W/_build/mptplot -lmptplot -Wl,-rpath,$W/_build/mptplot -L$W/_build/mptio -lmptio -Wl,-rpath,$W/_build/mptio -L$W/_build/mpt++ -lmpt++ -Wl,-rpath,$W/_build/mpt++"; fi
-  $CC -g -I"$W/mptcore" -I"$W/mptio" -I"$W/mptplot" -I"$W/mpt++" -I"$W" "$DEMO" -o "$W/demo.bin" $LIBS -lm >/dev/null 2>"$W/demo.err" || { echo "demo build failed"; cat "$W/demo.err" | head; return 99; }
-  timeout 60 "$W/demo.bin" >/dev/null 2>&1
+  ARG=""
+  if [ -f "$SRC/plugin.c" ]; then cp "$SRC/plugin.c" "$DST/"; cc -shared -fPIC -I"$W/mptcore" "$SRC/plugin.c" -o "$W/plugin.so" || return 99; ARG="$W/plugin.so"; fi
+  if grep -q "loader.h\|mpt_library" "$DEMO"; then LIBS="$LIBS -L$W/_build/mptloader -lmptloader -Wl,-rpath,$W/_build/mptloader -ldl"; fi
+  $CC -g -I"$W/mptloader" -I"$W/mptcore" -I"$W/mptio" -I"$W/mptplot" -I"$W/mpt++" -I"$W" "$DEMO" -o "$W/demo.bin" $LIBS -lm >/dev/null 2>"$W/demo.err" || { echo "demo build failed"; cat "$W/demo.err" | head; return 99; }
+  timeout 60 "$W/demo.bin" $ARG >/dev/null 2>&1
   return $?
 }
 build || { echo "clean build failed"; exit 2; }
